@@ -155,6 +155,13 @@ def check_batch(ctx, facts):
         ctx.anchor_missing("C07.1", "write plan pushes in batch_write")
         return
     plan_local = plan_pushes[0][1]
+    # parameter names by role (type), not by spelling
+    bname = next((b.local_name(i) for i in range(1, b.arg_count + 1) if "[&[u8]]" in b.local_ty(i)), None)
+    pname = next((u.local_name(i) for i in range(1, u.arg_count + 1) if "(wal::block::Block, u64, usize)" in u.local_ty(i)), None)
+    if not bname or not pname:
+        ctx.anchor_missing("C07.1", "the batch slice parameter of batch_write / the write-plan parameter of the io_uring helper")
+        return
+    bre = re.escape(bname)
     # the batch index local: third tuple element pushed
     idx_locals = set()
     for s, l in plan_pushes:
@@ -188,7 +195,7 @@ def check_batch(ctx, facts):
     for T in all_tests(b):
         if T.kind == "cmp" and T.op == "Lt" and op_local(T.a) in idx_locals:
             eb = strip_refs(expr(b, T.b))
-            if eb[0] == "len" and "batch" in show(eb):
+            if eb[0] == "len" and bname in show(eb):
                 cond_ok = True
     if cond_ok:
         ctx.ok("C07.1", "writer::Writer::batch_write", "planning continues while index < batch.len()", b.relfile, plan_pushes[0][0].line)
@@ -199,7 +206,7 @@ def check_batch(ctx, facts):
         ea = [show(strip_refs(expr(b, a))) for a in w.node["args"]]
         # args: blk, offset, data, col, next
         same = re.search(r"as Some\.0\.0|\.0$", ea[0]) is not None
-        data_ok = ea[2].startswith("batch[") and "as Some.0.2" in ea[2] or re.search(r"batch\[.*\.2\]", ea[2])
+        data_ok = ea[2].startswith(bname + "[") and "as Some.0.2" in ea[2] or re.search(bre + r"\[.*\.2\]", ea[2])
         off_ok = "as Some.0.1" in ea[1] or re.search(r"\.1$", ea[1])
         if data_ok and off_ok:
             ctx.ok("C07.1", "writer::Writer::batch_write", "portable loop writes batch[plan.idx] at plan.offset of plan.block", b.relfile, w.line)
@@ -212,7 +219,7 @@ def check_batch(ctx, facts):
         # push inside the loop over write_plan
         loop_ok = pushes[0].bb in u.reachable_after(pushes[0].bb) and u.dominates(pushes[0].bb, sw[0].bb) is False
         n_arg = show(strip_refs(expr(u, sw[0].node["args"][1])))
-        if pushes[0].bb in u.reachable_after(pushes[0].bb) and n_arg in ("len(write_plan)", "len(ref(write_plan))"):
+        if pushes[0].bb in u.reachable_after(pushes[0].bb) and n_arg in ("len(%s)" % pname, "len(ref(%s))" % pname):
             ctx.ok("C07.1", "writer::Writer::submit_batch_via_io_uring", "one SQE per plan element, submit_and_wait(write_plan.len())", u.relfile, sw[0].line)
         else:
             ctx.violate("C07.1", "writer::Writer::submit_batch_via_io_uring", "submission-count", u.relfile, sw[0].line, "not every planned write is submitted and awaited (%s)" % n_arg)
